@@ -1679,6 +1679,7 @@ class DriverSCIRS232(DriverSerialBase):
             # unexpected response can't accidentally be used
             if msg.devicetype != 0 and not in_transaction:
                 # 'run_sequence()' emits this itself, inside its transaction
+                self._protocol.reset_dali_response()
                 await self._protocol.send_dali_command(
                     gear.general.EnableDeviceType(msg.devicetype)
                 )
